@@ -69,6 +69,40 @@ SPECS = [
          params=[("ip_src", "Bytes"), ("ip_dst", "Bytes"), ("sport", "Nat"), ("dport", "Nat")], ret="Bool",
          places=[("self.server_ip", "server_ip", "Bytes", "r"), ("self.server_port", "server_port", "Nat", "r"),
                  ("self.client_ip", "client_ip", "Bytes", "r"), ("self.client_port", "client_port", "Nat", "r")]),
+    dict(name="matches_session", file="tlexport/session.py", func="Session.matches_session", params=[], ret="Bool",
+         places=[("packet.ip_src", "ip_src", "Bytes", "r"), ("packet.ip_dst", "ip_dst", "Bytes", "r"),
+                 ("packet.sport", "sport", "Nat", "r"), ("packet.dport", "dport", "Nat", "r"),
+                 ("self.server_ip", "server_ip", "Bytes", "r"), ("self.server_port", "server_port", "Nat", "r"),
+                 ("self.client_ip", "client_ip", "Bytes", "r"), ("self.client_port", "client_port", "Nat", "r")]),
+    dict(name="set_client_and_server_ports", file="tlexport/session.py", func="Session.set_client_and_server_ports",
+         params=[("server_ports", "List Int")], ret="None",
+         places=[("packet.ipv6_packet", "ipv6_packet", "Bool", "r"),
+                 ("packet.ip_src", "ip_src", "Bytes", "r"), ("packet.ip_dst", "ip_dst", "Bytes", "r"),
+                 ("packet.sport", "sport", "Nat", "r"), ("packet.dport", "dport", "Nat", "r"),
+                 ("packet.ethernet_src", "ethernet_src", "Bytes", "r"), ("packet.ethernet_dst", "ethernet_dst", "Bytes", "r"),
+                 ("self.ipv6", "ipv6", "Bool", "rw"),
+                 ("self.server_ip", "server_ip", "Bytes", "rw"), ("self.server_port", "server_port", "Nat", "rw"),
+                 ("self.server_mac_addr", "server_mac_addr", "Bytes", "rw"),
+                 ("self.client_ip", "client_ip", "Bytes", "rw"), ("self.client_port", "client_port", "Nat", "rw"),
+                 ("self.client_mac_addr", "client_mac_addr", "Bytes", "rw")]),
+    dict(name="handle_alert", file="tlexport/session.py", func="Session.handle_alert",
+         params=[("alert_level", "Nat")], ret="None", consts=TLSVER,
+         places=[("self.tls_version", "tls_version", f"Option {VER}", "r"),
+                 ("self.can_decrypt", "can_decrypt", "Bool", "rw"), ("self.client_hello_seen", "client_hello_seen", "Bool", "rw")]),
+    # `handshake_13_buffer` (a dict keyed by direction) is seen as the pair of its `.get(False, b"")`, `.get(True, b"")`
+    dict(name="handle_tls_client_hello", file="tlexport/session.py", func="Session.handle_tls_client_hello",
+         params=[], ret="None", empty_dict={"Bytes × Bytes": "(([], []) : Bytes × Bytes)"},
+         places=[("record.binary", "binary", "Bytes", "r"),
+                 ("self.can_decrypt", "can_decrypt", "Bool", "rw"), ("self.server_cipher_change", "server_cipher_change", "Bool", "rw"),
+                 ("self.client_cipher_change", "client_cipher_change", "Bool", "rw"),
+                 ("self.handshake_13_buffer", "handshake_13_buffer", "Bytes × Bytes", "rw"),
+                 ("self.client_random", "client_random", "Option Bytes", "rw"),
+                 ("self.client_hello_seen", "client_hello_seen", "Bool", "rw")]),
+    # handle_tls_server_hello: the version choice at its end (the `match` statement)
+    dict(name="server_hello_version", file="tlexport/session.py", func="Session.handle_tls_server_hello",
+         select={"start": "match int.from_bytes(record.record_version"}, params=[("is_tls13", "Bool")], consts=TLSVER,
+         places=[("record.record_version", "record_version", "Bytes", "r"), ("record.binary", "binary", "Bytes", "r"),
+                 ("self.tls_version", "tls_version", f"Option {VER}", "rw"), ("self.can_decrypt", "can_decrypt", "Bool", "rw")]),
 ]
 
 THEOREMS = ["TLX.Props.Translated." + s["name"] + "_eq_model" for s in SPECS]
